@@ -5,6 +5,7 @@ import AdfObdd.NgEndToEnd
 import AdfObdd.NgChannel
 import AdfObdd.NgPartialHeu
 import AdfObdd.NgChannelMore
+import AdfObdd.NgFuelBound
 /-! # C05 — the nogood-learning search is exact and terminates for every heuristic
 
 **Main theorem** `ng_search_exact` (= `ng_search_statement`): for the CONCRETE executable model
@@ -16,6 +17,9 @@ are, without repetition, exactly the stable models (`stable = true`) resp. the t
 (`stable = false`) of the conditions' Boolean functions. `ng_search_exact_from_formulas` is the same
 from the written conditions (`from_parser` model), where the only side condition of the two-valued
 mode — the conditions mention statements of the framework only — is a property of the text.
+The fuel is EXPLICIT: `ng_search_halts_within_explicit_bound` / `ng_search_exact_within_explicit_bound` —
+at every fuel `≥ NConc.ngBound n = 2^(n+3)` (`n` statements) the loop has halted with the exact answer
+(section "the explicit iteration bound"; `2^(n+3) ≤ 10^6`, the driver's bound, iff `n ≤ 16`).
 
 How it is proved (files `NgGen`, `NgGenHalt`, `NgSem`, `NgConcrete`, `NgLeaf`, `NgSimulation`,
 `NgEndToEnd`):
@@ -219,6 +223,98 @@ theorem ng_search_exact_from_formulas (h : SM.Heu) (fms : List Fm) (stable : Boo
         (v.length = fms.length ∧ TotalI v ∧ Gam D v = v ∧
           (stable = true → ∀ w : I3, IsLfp (redu D v) w → ∀ i : Nat, v[i]? = some (some true) → w[i]? = some (some true))) :=
   NConc.ng_end_to_end_compiled h fms stable hn hv
+
+/-! ## the explicit iteration bound (both reviews' "fuel" items)
+
+`ng_search_exact` says "there is a fuel". The termination argument (`NGen.bigstep`: strong induction
+on the number `d` of undecided statements) is redone in `AdfObdd/NgBound.lean` with the iterations
+counted (`NGen.bigstepN`): exploring the subtree below a state with `d` undecided statements takes at
+most `stepsT d` iterations, `stepsT 0 = 2`, `stepsT (d+1) = 2 * stepsT d + 6`, i.e. `8 * 2^d - 6`;
+from the start state two more iterations are needed. The simulation concrete ↔ semantic machine is
+lock-step, so the same number bounds `SM.ngRun` (`AdfObdd/NgFuelBound.lean`):
+
+    NConc.ngBound n = 2^(n+3)      (n = number of statements; not tight)
+
+It is exponential in `n` (it has to be: the loop emits up to `2^n` models), so it reaches the driver's
+10^6 exactly for `n ≤ 16`. For larger frameworks "halted within 10^6" stays a hypothesis of the CLI /
+server theorems and is established by evaluation only; the Rust loop itself has no bound. -/
+
+/-- liveness of the generic machine with the iterations counted: at most `stepsT n + 2` -/
+theorem generic_terminates_within {V Sto : Type} {P : NGen.GParams V Sto} {n : Nat} {mu : PA → Nat}
+    (hL : NGen.GLive P n mu) (g : V) (st : Sto) (hok : P.Ok g) (hoks : P.OkS st) (hemp : ∀ x, ¬ P.Mem st x) (k : Nat) :
+    ∃ fuel s', fuel ≤ NGen.stepsT n + 2 ∧
+      NGen.run P k fuel { cur := g, store := st, stack := [], backtrack := false, choice := false, out := [] } = some s' :=
+  NGen.halts_within hL g st hok hoks hemp k
+
+/-- closed form of the step count: `stepsT d = 8 * 2^d - 6` -/
+theorem generic_step_count_closed_form (d : Nat) : NGen.stepsT d + 6 = 8 * 2 ^ d := NGen.stepsT_closed d
+
+/-- … which is below the bound used for the concrete loop -/
+theorem generic_step_count_le_bound (n : Nat) : NGen.stepsT n + 2 ≤ NConc.ngBound n := NConc.stepsT_le_ngBound n
+
+/-- statement: under the hypotheses of `ng_search_exact` (halting needs neither the support hypothesis
+of the two-valued mode nor anything about the heuristic beyond `SM.Heu`) the loop has halted at EVERY
+fuel from `2^(n+3)` on -/
+def ng_search_halts_within_statement : Prop :=
+  ∀ (h : SM.Heu) (s : Store) (n : Nat) (ac : List Nat) (stable : Bool),
+    WF s → ac.length = n → (∀ t ∈ ac, t < s.nodes.size) →
+    ∀ fuel, NConc.ngBound n ≤ fuel → (SM.ngSearch h fuel s n ac stable).2.2.2 = true
+
+/-- **C05, explicit fuel**: `SM.ngSearch` has halted within `NConc.ngBound n = 2^(n+3)` iterations -/
+theorem ng_search_halts_within_explicit_bound : ng_search_halts_within_statement := by
+  intro h s n ac stable w hn hv fuel hf
+  exact NConc.ngSearch_halts_within h s n ac stable w hn hv fuel hf
+
+/-- the same for ANY heuristic function satisfying `NConc.HeuOK` -/
+theorem ng_search_halts_within_any_heuristic (hc : NConc.CHeu) (hok : NConc.HeuOK hc) (s : Store) (n : Nat)
+    (ac : List Nat) (stable : Bool) (w0 : WF s) (hn : ac.length = n) (hac0 : ∀ t ∈ ac, t < s.nodes.size) :
+    ∀ fuel, NConc.ngBound n ≤ fuel → (NConc.cSearch hc fuel s n ac stable).2.2.2 = true :=
+  NConc.search_halts_within_any_heuristic hc hok s n ac stable w0 hn hac0
+
+/-- **`ng_search_exact` with the quantifier over the fuel turned round**: at EVERY fuel `≥ 2^(n+3)` the
+search has halted and the emitted list is exactly the models, each once -/
+theorem ng_search_exact_within_explicit_bound (h : SM.Heu) (s : Store) (n : Nat) (ac : List Nat) (stable : Bool)
+    (w : WF s) (hn : ac.length = n) (hv : ∀ t ∈ ac, t < s.nodes.size)
+    (hsup : stable = false → ∀ t ∈ ac, ∀ σ τ : Asg, (∀ i, i < n → σ i = τ i) → eval s t σ = eval s t τ) :
+    ∀ fuel, NConc.ngBound n ≤ fuel → (SM.ngSearch h fuel s n ac stable).2.2.2 = true ∧
+      let D := ac.map (eval s)
+      let out := (SM.ngSearch h fuel s n ac stable).2.1.map (fun v => v.map storeIsConst)
+      out.Nodup ∧ ∀ v : I3, v ∈ out ↔
+        (v.length = n ∧ TotalI v ∧ Gam D v = v ∧
+          (stable = true → ∀ w : I3, IsLfp (redu D v) w → ∀ i : Nat, v[i]? = some (some true) → w[i]? = some (some true))) :=
+  NConc.ngSearch_exact_within h s n ac stable w hn hv hsup
+
+/-- … and from the written conditions -/
+theorem ng_search_exact_within_from_formulas (h : SM.Heu) (fms : List Fm) (stable : Bool) (hn : fms.length ≤ VBOT)
+    (hv : ∀ f ∈ fms, NConc.atomsLt fms.length f) :
+    ∀ fuel, NConc.ngBound fms.length ≤ fuel →
+      (SM.ngSearch h fuel (buildNative fms.length fms).1 fms.length (buildNative fms.length fms).2 stable).2.2.2 = true ∧
+      let D := fms.map Fm.sem
+      let out := (SM.ngSearch h fuel (buildNative fms.length fms).1 fms.length (buildNative fms.length fms).2 stable).2.1.map
+        (fun v => v.map storeIsConst)
+      out.Nodup ∧ ∀ v : I3, v ∈ out ↔
+        (v.length = fms.length ∧ TotalI v ∧ Gam D v = v ∧
+          (stable = true → ∀ w : I3, IsLfp (redu D v) w → ∀ i : Nat, v[i]? = some (some true) → w[i]? = some (some true))) :=
+  NConc.ngSearch_exact_within_compiled h fms stable hn hv
+
+/-- the bound as numerals (kernel-checked evaluation) -/
+theorem explicit_bound_2 : NConc.ngBound 2 = 32 := rfl
+theorem explicit_bound_5 : NConc.ngBound 5 = 256 := rfl
+theorem explicit_bound_6 : NConc.ngBound 6 = 512 := rfl
+theorem explicit_bound_8 : NConc.ngBound 8 = 2048 := rfl
+theorem explicit_bound_16 : NConc.ngBound 16 = 524288 := rfl
+theorem explicit_bound_17 : NConc.ngBound 17 = 1048576 := rfl
+
+/-- 16 is the largest number of statements for which the explicit bound is within the driver's 10^6 -/
+theorem explicit_bound_within_driver_bound_iff (n : Nat) : NConc.ngBound n ≤ 1000000 ↔ n ≤ 16 :=
+  NConc.ngBound_le_million_iff n
+
+/-- **the driver's bound suffices for at most 16 statements** (every heuristic, both modes) -/
+theorem ng_search_halts_within_driver_bound (h : SM.Heu) (s : Store) (n : Nat) (ac : List Nat) (stable : Bool)
+    (w : WF s) (hn : ac.length = n) (hv : ∀ t ∈ ac, t < s.nodes.size) (h16 : n ≤ 16) :
+    (SM.ngSearch h 1000000 s n ac stable).2.2.2 = true :=
+  ng_search_halts_within_explicit_bound h s n ac stable w hn hv 1000000
+    ((explicit_bound_within_driver_bound_iff n).mpr h16)
 
 /-- validity of the built-in heuristics of the concrete model: whatever they return is an undecided
 statement with a truth value (for the scripted/Rand shape: for EVERY generator output) -/
@@ -545,6 +641,20 @@ theorem mutual_support_models : ∀ v : I3, v = [some false, some false] ∨ v =
       · congr 1; exact constOf_some.mpr (fun σ => by simp [over, upd])
       · congr 1; congr 1; exact constOf_some.mpr (fun σ => by simp [over, upd])
 
+/-- the explicit bound on a non-trivial instance (kernel-checked hypotheses): `ac(a) = b`, `ac(b) = a`,
+two-valued mode, ANY heuristic: at fuel `32 = ngBound 2` the run has halted and both models are emitted -/
+example (h : SM.Heu) :
+    (SM.ngSearch h 32 (buildNative 2 [.atom 1, .atom 0]).1 2 (buildNative 2 [.atom 1, .atom 0]).2 false).2.2.2 = true ∧
+    [some false, some false] ∈
+      (SM.ngSearch h 32 (buildNative 2 [.atom 1, .atom 0]).1 2 (buildNative 2 [.atom 1, .atom 0]).2 false).2.1.map
+        (fun v => v.map storeIsConst) ∧
+    [some true, some true] ∈
+      (SM.ngSearch h 32 (buildNative 2 [.atom 1, .atom 0]).1 2 (buildNative 2 [.atom 1, .atom 0]).2 false).2.1.map
+        (fun v => v.map storeIsConst) := by
+  obtain ⟨hd, _, h3⟩ := ng_search_exact_within_from_formulas h [.atom 1, .atom 0] false (by simp [VBOT])
+    (by intro f hf; simp at hf; rcases hf with rfl | rfl <;> simp [NConc.atomsLt]) 32 (by decide)
+  exact ⟨hd, (h3 _).mpr (mutual_support_models _ (Or.inl rfl)), (h3 _).mpr (mutual_support_models _ (Or.inr rfl))⟩
+
 /-- the channel clause on a non-trivial instance: `ac(a) = b`, `ac(b) = a`, two-valued mode (models: both
 false, both true), a `bounded(1)` channel and the alternating schedule: for every heuristic the consumer's
 loop ends, it has received both models, and the last event at the sending end is the `close` -/
@@ -824,6 +934,10 @@ example (h : SM.Heu) (sched : List Ev) (s : Store) (n : Nat) (ac : List Nat) (st
   ⟨r.1, r.2.1⟩
 
 #print axioms C05.ng_search_exact
+#print axioms C05.ng_search_halts_within_explicit_bound
+#print axioms C05.ng_search_exact_within_explicit_bound
+#print axioms C05.ng_search_exact_within_from_formulas
+#print axioms C05.ng_search_halts_within_driver_bound
 #print axioms C05.channel_variants_deliver_exactly
 #print axioms C05.channel_variants_any_heuristic
 #print axioms C05.iterator_variant_exact
